@@ -7,7 +7,7 @@ From Astisub Require Import Kit.Base Kit.Str Kit.Html Kit.Scan Model.Dur Model.S
 Import ListNotations.
 Open Scope N_scope.
 
-Definition okc (c : N) : bool := negb (c =? 38) && negb (c =? 13).
+(* [okc] (no '&', no CR), [nonul], [tag_html_ok], [tag_nonul] are defined in Proofs/VttLine.v: they are part of [rtag_ok] / [repr_vline] *)
 Definition okv (kv : str * str) : Prop := forallb okc (snd kv) = true.
 
 Lemma read_bare_val a : forall rest acc k r, forallb okc a = true -> forallb okc acc = true ->
@@ -115,10 +115,8 @@ Proof.
   apply H. cbn [length] in *. lia.
 Qed.
 
-(* what makes a tag acceptable to the real tokenizer: its element name (with the classes) is not a raw-text element,
-   its annotation has no '&' and no CR *)
-Definition tag_html_ok (t : vtag) : bool :=
-  negb (existsb (str_eqb (to_lower (vt_name t ++ cls_part (vt_classes t)))) raw_text_tags) && forallb okc (vt_annot t).
+(* what makes a tag acceptable to the real tokenizer ([tag_html_ok], Proofs/VttLine.v): its element name (with the classes)
+   is not a raw-text element, its annotation has no '&' and no CR *)
 
 Lemma no_slash_in (s : str) (p : N -> bool) : (forall c, p c = true -> c <> 47) -> forallb p s = true -> existsb (N.eqb 47) s = false.
 Proof.
@@ -267,10 +265,10 @@ Proof.
   destruct (p x), (q x), (forallb p l), (forallb q l); reflexivity.
 Qed.
 
-Theorem written_line_simple l : repr_vline l = true -> line_html_ok l = true ->
+Theorem written_line_simple_html l : repr_vline l = true -> line_html_ok l = true ->
   vtt_line_simple (removelast (vline_bytes l)) = true.
 Proof.
-  intros H Hh. unfold repr_vline in H. apply andb_true_iff in H. destruct H as [Hv Hc].
+  intros H Hh. unfold repr_vline in H. apply andb_true_iff in H. destruct H as [Hv Hc]. apply voice_ok_annot in Hv.
   unfold line_html_ok in Hh. apply andb_true_iff in Hh. destruct Hh as [Hh H0]. apply andb_true_iff in Hh. destruct Hh as [Hvo Hrs].
   assert (T : forallb tok_good (tokenize (removelast (vline_bytes l))) = true).
   { rewrite vline_bytes_removelast. unfold tokenize.
@@ -289,6 +287,116 @@ Proof.
   unfold tok_good in T. rewrite forallb_andb in T. apply andb_true_iff in T. destruct T as [T1 T2].
   unfold vtt_line_simple, html_simple. rewrite T1, H0, T2. reflexivity.
 Qed.
+
+(* ================= [repr_vline] alone implies [line_html_ok] ================= *)
+(* no NUL byte in the written line, from the components *)
+Definition NoNul (s : str) : Prop := ~ In 0 s.
+Lemma nonul_NoNul s : nonul s = true -> NoNul s.
+Proof.
+  unfold nonul, NoNul. intros H Hin. apply negb_true_iff in H.
+  assert (E : existsb (N.eqb 0) s = true) by (apply existsb_exists; exists 0; split; [exact Hin | reflexivity]).
+  rewrite E in H. discriminate.
+Qed.
+Lemma NoNul_nonul s : NoNul s -> nonul s = true.
+Proof.
+  unfold nonul, NoNul. intros H. apply negb_true_iff. destruct (existsb (N.eqb 0) s) eqn:E; [|reflexivity].
+  apply existsb_exists in E. destruct E as (x & Hx & Ex). apply N.eqb_eq in Ex. subst x. contradiction.
+Qed.
+Lemma NoNul_app a b : NoNul a -> NoNul b -> NoNul (a ++ b).
+Proof. unfold NoNul. intros Ha Hb Hin. apply in_app_or in Hin. tauto. Qed.
+Lemma NoNul_cons c a : c <> 0 -> NoNul a -> NoNul (c :: a).
+Proof. unfold NoNul. intros Hc Ha [E|Hin]; [exact (Hc E) | exact (Ha Hin)]. Qed.
+Lemma NoNul_nil : NoNul []. Proof. intros []. Qed.
+Lemma NoNul_concat ls : (forall x, In x ls -> NoNul x) -> NoNul (concat ls).
+Proof.
+  induction ls as [|x ls IH]; intros H; [apply NoNul_nil|]. cbn [concat].
+  apply NoNul_app; [apply H; left; reflexivity | apply IH; intros y Hy; apply H; right; exact Hy].
+Qed.
+Lemma NoNul_escape s : NoNul s -> NoNul (escape_html s).
+Proof.
+  unfold NoNul. intros H Hin. apply escape_bytes in Hin. destruct Hin as [Hin|Hin]; [contradiction|].
+  cbn [In] in Hin. repeat (destruct Hin as [Hin|Hin]; [discriminate|]). exact Hin.
+Qed.
+Lemma NoNul_format_vtt t : (0 <= t)%Z -> NoNul (format_vtt t).
+Proof. intros Ht. apply format_vtt_not_in; [exact Ht | reflexivity]. Qed.
+Lemma NoNul_cls_part cs : forallb nonul cs = true -> NoNul (cls_part cs).
+Proof.
+  intros H. unfold cls_part. destruct cs as [|w ws] eqn:E; [apply NoNul_nil|]. rewrite <- E in *. clear E.
+  apply NoNul_cons; [discriminate|]. intros Hin. apply in_join in Hin. destruct Hin as [[Hin|[]]|(w' & Hw' & Hin)]; [discriminate|].
+  rewrite forallb_forall in H. exact (nonul_NoNul _ (H w' Hw') Hin).
+Qed.
+Lemma NoNul_ann_part a : NoNul a -> NoNul (ann_part a).
+Proof. intros H. unfold ann_part. destruct a as [|c a']; [apply NoNul_nil | apply NoNul_cons; [discriminate | exact H]]. Qed.
+Lemma tag_nonul_parts t : tag_nonul t = true -> NoNul (vt_name t) /\ NoNul (cls_part (vt_classes t)) /\ NoNul (ann_part (vt_annot t)).
+Proof.
+  unfold tag_nonul. intros H. rewrite !andb_true_iff in H. destruct H as ((H1 & H2) & H3).
+  split; [apply nonul_NoNul; exact H1|]. split; [apply NoNul_cls_part; exact H2 | apply NoNul_ann_part, nonul_NoNul; exact H3].
+Qed.
+Lemma NoNul_tag_start t : rtag_ok t = true -> NoNul (tag_start t).
+Proof.
+  intros H. destruct (rtag_ok_html t H) as [_ Hn]. destruct (tag_nonul_parts t Hn) as (N1 & N2 & N3).
+  destruct (tag_name_ok_chars _ (rtag_ok_name t H)) as (_ & d & r & En & _).
+  rewrite tag_start_eq by (rewrite En; discriminate).
+  apply NoNul_cons; [discriminate|]. apply NoNul_app; [exact N1|]. apply NoNul_app; [exact N2|]. apply NoNul_app; [exact N3|].
+  apply NoNul_cons; [discriminate | apply NoNul_nil].
+Qed.
+Lemma NoNul_tag_end t : rtag_ok t = true -> NoNul (tag_end t).
+Proof.
+  intros H. destruct (rtag_ok_html t H) as [_ Hn]. destruct (tag_nonul_parts t Hn) as (N1 & _).
+  destruct (tag_name_ok_chars _ (rtag_ok_name t H)) as (_ & d & r & En & _).
+  rewrite tag_end_eq by (rewrite En; discriminate).
+  apply NoNul_cons; [discriminate|]. apply NoNul_cons; [discriminate|]. apply NoNul_app; [exact N1|].
+  apply NoNul_cons; [discriminate | apply NoNul_nil].
+Qed.
+Lemma run_ok_nonul r : run_ok r = true -> nonul (vr_text r) = true.
+Proof. unfold run_ok. intros H. apply andb_true_iff in H. tauto. Qed.
+Lemma NoNul_body r : run_ok r = true -> NoNul (body r).
+Proof.
+  intros H. destruct (run_ok_parts r H) as (_ & _ & Ht & _). unfold body, ts_bytes.
+  apply NoNul_app; [|apply NoNul_escape, nonul_NoNul, run_ok_nonul; exact H].
+  destruct (0 <? vr_time r)%Z; [|apply NoNul_nil].
+  apply NoNul_app; [apply NoNul_cons; [discriminate | apply NoNul_nil]|].
+  apply NoNul_app; [apply NoNul_format_vtt; lia | apply NoNul_cons; [discriminate | apply NoNul_nil]].
+Qed.
+Lemma NoNul_tags (f : vtag -> str) ts : (forall t, rtag_ok t = true -> NoNul (f t)) -> forallb rtag_ok ts = true -> NoNul (concat (map f ts)).
+Proof.
+  intros Hf H. apply NoNul_concat. intros x Hx. apply in_map_iff in Hx. destruct Hx as (t & <- & Ht).
+  rewrite forallb_forall in H. apply Hf, H, Ht.
+Qed.
+Lemma NoNul_runs rs : forall prev, chain_ok prev rs = true -> NoNul (vruns_bytes prev rs).
+Proof.
+  induction rs as [|r rest IH]; intros prev Hc; [apply NoNul_nil|].
+  cbn [chain_ok] in Hc. apply andb_true_iff in Hc. destruct Hc as [Hc Hrest]. apply andb_true_iff in Hc. destruct Hc as [Hr _].
+  destruct (run_ok_parts r Hr) as (Hcol & _ & _ & _ & Hrt).
+  rewrite vruns_bytes_cons, (vrun_bytes_eq prev (onext rest) r Hcol).
+  apply NoNul_app; [|apply IH; exact Hrest].
+  apply NoNul_app; [apply (NoNul_tags tag_start); [exact NoNul_tag_start | apply forallb_skipn; exact Hrt]|].
+  apply NoNul_app; [apply NoNul_body; exact Hr|].
+  apply (NoNul_tags tag_end); [exact NoNul_tag_end | apply forallb_rev, forallb_skipn; exact Hrt].
+Qed.
+
+Lemma chain_ok_html prev rs : chain_ok prev rs = true -> forallb (fun r => forallb tag_html_ok (run_tags r)) rs = true.
+Proof.
+  intros H. apply chain_ok_all in H. apply forallb_forall. intros r Hr. rewrite Forall_forall in H.
+  destruct (run_ok_parts r (H r Hr)) as (_ & _ & _ & _ & Hrt).
+  exact (forallb_impl' _ _ _ (fun t Ht => proj1 (rtag_ok_html t Ht)) Hrt).
+Qed.
+
+(* the strengthened [repr_vline] contains what [line_html_ok] asks for *)
+Lemma repr_line_html_ok l : repr_vline l = true -> line_html_ok l = true.
+Proof.
+  intros H. unfold repr_vline in H. apply andb_true_iff in H. destruct H as [Hv Hc].
+  unfold voice_ok in Hv. rewrite !andb_true_iff in Hv. destruct Hv as ((_ & Hvo) & Hvn).
+  unfold line_html_ok. rewrite Hvo, (chain_ok_html _ _ Hc). cbn [andb].
+  change (nonul (removelast (vline_bytes l)) = true). apply NoNul_nonul. rewrite vline_bytes_removelast.
+  apply NoNul_app; [|apply NoNul_runs; exact Hc].
+  destruct (vl_voice l) as [|c v']; [apply NoNul_nil|].
+  repeat (apply NoNul_cons; [discriminate|]). apply NoNul_app; [apply nonul_NoNul; exact Hvn | apply NoNul_cons; [discriminate | apply NoNul_nil]].
+Qed.
+
+(* A WRITTEN LINE LIES IN THE FAITHFUL DOMAIN of the tokenizer model: the representability predicate alone suffices *)
+Theorem written_line_simple l : repr_vline l = true -> vtt_line_simple (removelast (vline_bytes l)) = true.
+Proof. intros H. apply written_line_simple_html; [exact H | apply repr_line_html_ok; exact H]. Qed.
 
 Example ex_line_simple : vtt_line_simple (removelast (vline_bytes ex_line)) = true.
 Proof. apply written_line_simple; vm_compute; reflexivity. Qed.
